@@ -1,0 +1,147 @@
+//go:build verif
+
+// Package verifbcl is a verification-only facade (build tag "verif") over
+// internal/bcl/internal/parser and internal/bcl/errpos. It adds no behaviour:
+// it only makes the lexer, the walker, ParseFile, Fmt, FmtDiffs and the
+// diagnostic printer reachable from the external verification harness, which
+// cannot import internal/bcl/internal/parser itself.
+package verifbcl
+
+import (
+	"context"
+	"errors"
+
+	"github.com/pentops/j5/internal/bcl/errpos"
+	"github.com/pentops/j5/internal/bcl/genlsp"
+	"github.com/pentops/j5/internal/bcl/internal/parser"
+)
+
+type (
+	Tok     = parser.VerifTok
+	Diag    = parser.VerifDiag
+	Ident   = parser.VerifIdent
+	Ref     = parser.VerifRef
+	Value   = parser.VerifValue
+	Tag     = parser.VerifTag
+	Comment = parser.VerifComment
+	Frag    = parser.VerifFrag
+	FmtDiff = parser.FmtDiff
+	Point   = errpos.Point
+)
+
+func Lex(input string, failFast bool) ([]Tok, bool, []Diag, error) {
+	return parser.VerifLex(input, failFast)
+}
+
+func Fragments(input string, failFast bool) ([]Frag, []Diag, bool, error) {
+	return parser.VerifFragments(input, failFast)
+}
+
+// ParseResult is what parser.ParseFile returned, as plain data.
+type ParseResult struct {
+	TreeNil   bool
+	Body      []Frag
+	TreeDiags []Diag // File.Errors
+	ErrKind   string // "" | "with-source" | "had-errors" | "other"
+	ErrText   string
+	Diags     []Diag // the diagnostics carried by the returned error (ErrorsWithSource)
+	source    *errpos.ErrorsWithSource
+}
+
+func ParseFile(input string, failFast bool) ParseResult {
+	tree, err := parser.ParseFile(input, failFast)
+	res := ParseResult{}
+	res.Body, res.TreeDiags, res.TreeNil = parser.VerifTree(tree)
+	if err == nil {
+		return res
+	}
+	res.ErrText = err.Error()
+	if ws, ok := errpos.AsErrorsWithSource(err); ok {
+		res.ErrKind = "with-source"
+		res.source = ws
+		for _, e := range ws.Errors {
+			d := Diag{}
+			if e.Err != nil {
+				d.Msg = e.Err.Error()
+			}
+			if e.Pos != nil {
+				d.HasPos = true
+				d.Start = e.Pos.Start
+				d.End = e.Pos.End
+			}
+			res.Diags = append(res.Diags, d)
+		}
+		return res
+	}
+	if errors.Is(err, parser.HadErrors) {
+		res.ErrKind = "had-errors"
+		return res
+	}
+	res.ErrKind = "other"
+	return res
+}
+
+// HumanString renders the diagnostics of a ParseResult against the source
+// (errpos.ErrorsWithSource.HumanString). ok is false when there is nothing to render.
+func (r ParseResult) HumanString(contextLines int) (string, bool) {
+	if r.source == nil {
+		return "", false
+	}
+	return r.source.HumanString(contextLines), true
+}
+
+// HumanStringOf renders arbitrary diagnostics (positions only) against a source text.
+func HumanStringOf(source string, diags []Diag, contextLines int) (string, bool) {
+	var errs errpos.Errors
+	for _, d := range diags {
+		e := &errpos.Err{Err: errors.New(d.Msg)}
+		if d.HasPos {
+			e.Pos = &errpos.Position{Start: d.Start, End: d.End}
+		}
+		errs = append(errs, e)
+	}
+	if len(errs) == 0 {
+		return "", false
+	}
+	ws, ok := errpos.AsErrorsWithSource(errpos.AddSource(errs, source))
+	if !ok {
+		return "", false
+	}
+	return ws.HumanString(contextLines), true
+}
+
+func Fmt(input string) (string, error) { return parser.Fmt(input) }
+
+func FmtDiffs(input string) ([]FmtDiff, error) { return parser.FmtDiffs(input) }
+
+// LspEdit is one protocol.TextEdit as produced by genlsp's formatter.
+type LspEdit struct {
+	StartLine, StartChar, EndLine, EndChar uint32
+	NewText                                string
+}
+
+func LspFormat(input string) ([]LspEdit, error) {
+	edits, err := genlsp.VerifFormat(context.Background(), input)
+	if err != nil {
+		return nil, err
+	}
+	out := make([]LspEdit, 0, len(edits))
+	for _, e := range edits {
+		out = append(out, LspEdit{
+			StartLine: e.Range.Start.Line, StartChar: e.Range.Start.Character,
+			EndLine: e.Range.End.Line, EndChar: e.Range.End.Character,
+			NewText: e.NewText,
+		})
+	}
+	return out, nil
+}
+
+func TokenSource(ty int, lit string) string { return parser.VerifTokenSource(ty, lit) }
+
+func ReformatDescription(input string, maxWidth int) []string {
+	return parser.VerifReformatDescription(input, maxWidth)
+}
+
+func TokenNames() []string { return parser.VerifTokenNames() }
+
+func Operators() map[rune]int { return parser.VerifOperators() }
